@@ -123,11 +123,14 @@ section terms
 variable [CommRing α]
 
 /-- 'auto' resolves to the derivative penalty for a numerical (`ps`) spline term … -/
-theorem auto_spline_ps (m : Marg α) (hk : m.kind = .spline) (hc : m.cyclic = false) :
-    m.resolvePen .auto = .derivative := by simp [Marg.resolvePen, hk, hc]
+theorem auto_spline_ps (m : Marg α) (hk : m.kind = .spline) (hc : m.cyclic = false) (hd : m.catDtype = false) :
+    m.resolvePen .auto = .derivative := by simp [Marg.resolvePen, hk, hc, hd]
 /-- … to the periodic penalty for a cyclic (`cp`) spline term … -/
-theorem auto_spline_cp (m : Marg α) (hk : m.kind = .spline) (hc : m.cyclic = true) :
-    m.resolvePen .auto = .periodic := by simp [Marg.resolvePen, hk, hc]
+theorem auto_spline_cp (m : Marg α) (hk : m.kind = .spline) (hc : m.cyclic = true) (hd : m.catDtype = false) :
+    m.resolvePen .auto = .periodic := by simp [Marg.resolvePen, hk, hc, hd]
+/-- … to the ridge penalty for a spline term declared `dtype='categorical'`, whatever its basis … -/
+theorem auto_spline_categorical (m : Marg α) (hk : m.kind = .spline) (hd : m.catDtype = true) :
+    m.resolvePen .auto = .l2 := by simp [Marg.resolvePen, hk, hd]
 /-- … and to the ridge penalty for linear and factor terms -/
 theorem auto_linear (m : Marg α) (hk : m.kind = .linear) : m.resolvePen .auto = .l2 := by
   simp [Marg.resolvePen, hk]
@@ -144,12 +147,12 @@ theorem term_penalty_quadForm (per : Nat → Nat → Nat → α) (m : Marg α) (
 
 /-- the default penalty of a numerical spline term is `lam ×` the sum of squared second differences -/
 theorem default_spline_penalty (per : Nat → Nat → Nat → α) (m : Marg α) (lam : α)
-    (hk : m.kind = .spline) (hc : m.cyclic = false) (hl : m.lam = [lam]) (hp : m.penalties = [.auto])
-    (c : Nat → α) :
+    (hk : m.kind = .spline) (hc : m.cyclic = false) (hd : m.catDtype = false) (hl : m.lam = [lam])
+    (hp : m.penalties = [.auto]) (c : Nat → α) :
     quadForm m.nCoefs (m.penalty per) c
       = lam * ∑ k ∈ range (m.nCoefs - 2), (iterDiffVec 2 c k) ^ 2 := by
   rw [term_penalty_quadForm, hl, hp]
-  simp [auto_spline_ps m hk hc, penMatrix, quadForm_derivPen]
+  simp [auto_spline_ps m hk hc hd, penMatrix, quadForm_derivPen]
 
 /-- a two-way tensor term: the penalty is the sum of the marginal penalties lifted by Kronecker products,
 i.e. the marginal roughness of every fibre of the coefficient array, in the row-major coefficient order
@@ -247,17 +250,22 @@ def penName : PenKind → String
 /-- `Term._name` of the three non-tensor term classes -/
 def margTermName : MargKind → String
   | .linear => "linear_term" | .spline => "spline_term" | .factor => "factor_term"
-/-- `dtype` as the constructors set it: `FactorTerm` categorical, `LinearTerm` / `SplineTerm` numerical (their default) -/
-def margDtype : MargKind → String
-  | .factor => "categorical" | _ => "numerical"
+/-- `dtype` of a term: `FactorTerm` is categorical, `LinearTerm` numerical (both fixed by their constructors), a
+`SplineTerm` numerical by default and categorical when the user says so -/
+def margDtype (m : Marg α) : String :=
+  match m.kind with
+  | .factor => "categorical"
+  | .linear => "numerical"
+  | .spline => if m.catDtype then "categorical" else "numerical"
 
 /-- the `'auto'` resolution of the source is `Marg.resolvePen`: numerical spline ↦ `'derivative'` (`basis = 'cp'`:
-`'periodic'`), linear and factor ↦ `'l2'`, every other name unchanged (30 cases, each by evaluation) -/
+`'periodic'`), categorical spline, linear and factor ↦ `'l2'`, every other name unchanged (40 cases, each by evaluation) -/
 theorem gen_decision_resolve_penalty (m : Marg α) (k : PenKind) :
-    Gen.resolve_penalty (margDtype m.kind) (margTermName m.kind) (if m.cyclic then "cp" else "ps") (some (penName k))
+    Gen.resolve_penalty (margDtype m) (margTermName m.kind) (if m.cyclic then "cp" else "ps") (some (penName k))
       = some (penName (m.resolvePen k)) := by
-  rcases m with ⟨kind, _, _, _, cyclic, _, _, _, _, _, _, _⟩
-  cases kind <;> cases cyclic <;> cases k <;> simp only [Marg.resolvePen, margDtype, margTermName, penName] <;> rfl
+  rcases m with ⟨kind, _, _, _, cyclic, _, _, _, _, _, _, _, cat⟩
+  cases kind <;> cases cyclic <;> cases cat <;> cases k <;>
+    simp only [Marg.resolvePen, margDtype, margTermName, penName] <;> rfl
 
 /-- `None` is the penalty `'none'` (`PenKind.none`), whatever the term -/
 theorem gen_decision_penalty_none (dtype name basis : String) :
